@@ -49,11 +49,14 @@ func (c *Chain) coverHook(ic *interop.Context) vm.OnExecHook {
 		cc, seen := known[h]
 		if !seen {
 			// (the context's own view: a contract deployed or updated by this very transaction is found too)
+			// (negative answers are not cached: an update inside this transaction changes the executable under h)
 			if cs, err := ic.GetContract(h); err == nil && cs != nil {
 				coverMu.Lock()
 				cc = coverByCks[cs.NEF.Checksum]
 				coverMu.Unlock()
-				known[h] = cc
+				if cc != nil {
+					known[h] = cc
+				}
 			}
 		}
 		if cc == nil {
